@@ -76,18 +76,18 @@ let () =
   let dead = ref false in
   let printed = Hashtbl.create 64 in
   let last_line = ref "" in
-  let case_saturated = ref false and case_canary_bad = ref false in
+  let case_saturated = ref false and case_canary_bad = ref false and inv_bad = ref false in
   let report sg text =
     let n = try Hashtbl.find printed sg with Not_found -> 0 in
     Hashtbl.replace printed sg (n + 1);
-    if n < 3 then print_string text in
+    if n < 1 then print_string text in
   let flush_case () =
     if Buffer.length cur_case > 0 then begin
       let key = Digest.string (Buffer.contents cur_case) in
       if !cur_nontrivial && not (Hashtbl.mem seen key) then begin
         Hashtbl.add seen key (); incr distinct_nontrivial end;
       if !case_saturated then bump extra "cases_reaching_saturation";
-      Buffer.clear cur_case; cur_nontrivial := false; case_saturated := false; case_canary_bad := false
+      Buffer.clear cur_case; cur_nontrivial := false; case_saturated := false; case_canary_bad := false; inv_bad := false
     end in
   (try
     while true do
@@ -119,14 +119,19 @@ let () =
                  report ("model" ^ name ^ "P") (Printf.sprintf "MISMATCH case=%d op=%d kind=model prop=C01 key=pubsub:model line=[%s] model=P impl=%s\n" !case_no !op_no line impl) end
                else begin
                  (* the implementation panicked and the faithful model predicts it: the property
-                    (no operation panics) fails on this history *)
+                    (no operation panics) fails on this history.  A panic that disappears with a larger
+                    to_be_removed_connections buffer is the fatal_panic of prepare_connection_removal *)
                  incr mm_spec; dead := true;
-                 report ("specP" ^ name) (Printf.sprintf "MISMATCH case=%d op=%d kind=spec prop=C01 key=pubsub:panic:%s line=[%s] spec=no-panic impl=P\n" !case_no !op_no name line) end
+                 let key = if not (panics (bump_tbrcap w0) o) then "pubsub:expired-connection-buffer-exceeded-panic" else "pubsub:panic:" ^ name in
+                 bump extra ("panic_" ^ (if key = "pubsub:panic:" ^ name then "other" else "expired_buffer"));
+                 report ("specP" ^ key) (Printf.sprintf "MISMATCH case=%d op=%d kind=spec prop=C08 key=%s line=[%s] spec=no-panic impl=P\n" !case_no !op_no key line) end
              | Val (w1, mo) ->
                let om = show_obs mo in
                bump extra ("obs_" ^ name ^ "_" ^ (match mo with
                  | BErr e -> show_err e | BRecv None -> "none" | BRecv _ -> "some" | BSent k -> "n" ^ string_of_int (int_of_nat k)
                  | BExh (_, e) -> show_err e | BLoaned _ -> "ok" | BCreated _ -> "ok" | o -> show_obs o));
+               let om = (if String.length impl > 2 && String.sub impl (String.length impl - 2) 2 = "@?" then
+                            (match String.index_opt om '@' with Some i -> String.sub om 0 i ^ "@?" | None -> om) else om) in
                if om <> impl then begin
                  incr mm_model; dead := true;
                  report ("model" ^ name) (Printf.sprintf "MISMATCH case=%d op=%d kind=model prop=C01 key=pubsub:model line=[%s] model=%s impl=%s\n" !case_no !op_no line om impl) end
@@ -153,6 +158,10 @@ let () =
                      | [] -> ())
                   | _ -> ());
                  (match mo with BSent _ | BRecv (Some _) | BLoaned _ -> cur_nontrivial := true | _ -> ());
+                 (* the conservation invariant of C02 (and the bounds C08 counts with), evaluated on the model state *)
+                 if not (inv_check w1) && not !inv_bad then begin
+                   incr mm_spec; inv_bad := true;
+                   report "specinv" (Printf.sprintf "MISMATCH case=%d op=%d kind=spec prop=C02 key=pubsub:conservation-invariant line=[%s] spec=inv_check impl=violated-in-model-state\n" !case_no !op_no line) end;
                  (* coverage: simultaneous saturation = some live publisher has no free chunk left *)
                  let np = List.length w1.w_pubs in
                  let rec anysat i = i < np && (saturated w1 (nat_of_int i) || anysat (i + 1)) in
@@ -175,7 +184,8 @@ let () =
               incr mm_spec; case_canary_bad := true;
               (* which kind of sample changed: one whose subscriber is gone (F2) or not *)
               let changed = List.filter (fun x -> List.assoc x.x_id (canary w0) <> x.x_expect) w0.w_samples in
-              let orphan = List.for_all (fun x -> not (sub_live w0 x.x_sub)) changed in
+              let orphan = changed <> [] && List.for_all (fun x -> not (sub_live w0 x.x_sub)) changed in
+              bump extra (if orphan then "canary_changed_subscriber_dropped" else "canary_changed_subscriber_registered");
               let key = if orphan then "pubsub:sample-outlives-subscriber-chunk-reused" else "pubsub:held-sample-content-changed" in
               report ("specK" ^ key) (Printf.sprintf "MISMATCH case=%d op=%d kind=spec prop=C02 key=%s line=[%s] after=[%s] spec=%s impl=%s\n" !case_no !op_no key line !last_line os impl) end
         end
